@@ -309,10 +309,30 @@ func runC19(c *h.Ctx) {
 	})
 
 	// wide containers of complex elements: the depth limit counts nesting levels, not elements
-	c.Run("skip-wide", c.N(24, 96), func(cs *h.Case) {
+	c.Run("skip-wide", c.N(30, 120), func(cs *h.Case) {
 		n := []int{1022, 1023, 1024, 1500, 4096, 70000}[cs.I%6]
 		var v *tref.Val
-		switch (cs.I / 6) % 4 {
+		switch (cs.I / 6) % 5 {
+		case 4:
+			// a wide struct: many sibling members that are not fixed-size (siblings are not nesting levels)
+			if n > 32000 {
+				n = 32000
+			}
+			v = tref.Struct()
+			for i := 0; i < n; i++ {
+				var x *tref.Val
+				switch i % 4 {
+				case 0:
+					x = tref.Str("s")
+				case 1:
+					x = tref.Struct()
+				case 2:
+					x = tref.List(tref.BYTE)
+				default:
+					x = &tref.Val{T: tref.MAP, KT: tref.BYTE, ET: tref.BYTE}
+				}
+				v.Fs = append(v.Fs, tref.Field{ID: int16(i + 1), V: x})
+			}
 		case 0:
 			v = &tref.Val{T: tref.LIST, ET: tref.STRUCT}
 			for i := 0; i < n; i++ {
@@ -362,7 +382,7 @@ func runC19(c *h.Ctx) {
 			}
 			tr.Free()
 		}
-		cs.Distinct(fmt.Sprintf("skipw-%d-%d", n, (cs.I/6)%4))
+		cs.Distinct(fmt.Sprintf("skipw-%d-%d", n, (cs.I/6)%5))
 	})
 
 	// ---- WriteAny / ReadAny (descriptor-free) -------------------------------------
